@@ -38,7 +38,7 @@ def run(ck, F, E):
         outer_ok = inner_ok = False
         for c in di.calls():
             if c.callee.endswith("::next") and any(c.bb in blk for blk in loops.values()):
-                e = di.expr(c.args[0])
+                e = di.expr(c.args[0], depth=40)
                 if expr_has_field(e, "sorted_line_numbers"):
                     outer_ok = True
                 if any(x[1].endswith("::enumerate") for x in expr_calls(e)) and expr_has_field(e, "numbered_lines"):
@@ -93,6 +93,8 @@ def run(ck, F, E):
         ck.require(not ws, "C03:FOR:LoopInfo.%s-immutable" % f, "limit and step fixed at entry",
                    "LoopInfo.%s is never written after construction" % f, "LoopInfo.%s is modified in %s" % (f, sorted(ws)))
     sl = get_fn(ck, F, "Program::start_loop")
+    fe = get_fn(ck, F, "StatementEvaluator::evaluate_for_statement")
+    tv = sv = None
     if sl is not None:
         aggs = list(aggregates(sl, "program::LoopInfo"))
         names = F.adt_fields("program::LoopInfo")
@@ -102,24 +104,37 @@ def run(ck, F, E):
             tv = strip_expr(sl.expr(rv["ops"][names.index("to_value")]))
             sv = strip_expr(sl.expr(rv["ops"][names.index("step_value")]))
             lv = strip_expr(sl.expr(rv["ops"][names.index("location")]))
-            ok = tv == ("param", 4) and sv == ("param", 5) and lv[0] == "place" and lv[2] and lv[2][-1] == (PROGRAM, "location")
+            # limit and step are two different parameters of start_loop, the location is the program's current one
+            ok = tv[0] == "param" and sv[0] == "param" and tv != sv and lv[0] == "place" and lv[2] and lv[2][-1] == (PROGRAM, "location")
         sites = [b.path for b in F.bodies.values() if b.crate == "abasic_core" and list(aggregates(b, "program::LoopInfo"))]
         ck.require(ok and sites == [sl.path], "C03:FOR:LoopInfo-construction", "limit and step fixed at entry",
                    "LoopInfo is built once, in start_loop, from its to/step arguments and the current location",
                    "LoopInfo is built at %s / with other values" % sites, sl.span)
-        vs = sl.calls_to("Variables::set")
-        ok = len(vs) == 1 and strip_expr(sl.expr(vs[0].args[2]))[0] == "call" and expr_params(sl.expr(vs[0].args[2])) == {3}
-        ck.require(ok, "C03:FOR:initial-value", "limit and step fixed at entry", "the loop variable is set to the FROM value",
-                   "start_loop no longer assigns the FROM value to the loop variable", sl.span)
-    fe = get_fn(ck, F, "StatementEvaluator::evaluate_for_statement")
+    if sl is not None and fe is not None:
+        # the loop variable receives the FROM value: in start_loop (from a parameter) or in the FOR handler next to the call
+        from lib import call_names_deep
+        sets = [(sl, c) for c in sl.calls_to("Variables::set")] + [(fe, c) for c in fe.calls_to("Variables::set")]
+        ok = False
+        for (ob, c) in sets:
+            v = ob.expr(c.args[2])
+            if ob is sl:
+                ps = expr_params(v)
+                if len(ps) == 1 and (tv is None or ("param", list(ps)[0]) not in (tv, sv)):
+                    ok = True
+            else:
+                nm = call_names_deep(ob, v)
+                if "evaluate_expression" in nm or "try_from" in nm or "try_into" in nm:
+                    ok = True
+        ck.require(ok and len(sets) == 1, "C03:FOR:initial-value", "limit and step fixed at entry", "the loop variable is set to the FROM value (once)",
+                   "neither start_loop nor the FOR handler assigns the FROM value to the loop variable exactly once (%d assignments)" % len(sets), sl.span)
     if fe is not None:
         c = fe.calls_to("Program::start_loop")
         ok = len(c) == 1
-        if ok:
-            args = [show(fe.expr(a)) for a in c[0].args]
-            order = [a.count("evaluate_expression") for a in args]
-            ok = len(args) == 6
-        ck.require(ok, "C03:FOR:operands", "limit and step fixed at entry", "start_loop receives (variables, symbol, from, to, step)",
+        if ok and tv is not None and tv[0] == "param" and sv[0] == "param":
+            from lib import call_names_deep
+            at, as_ = c[0].args[tv[1]], c[0].args[sv[1]]
+            ok = "evaluate_expression" in call_names_deep(fe, fe.expr(at)) and strip_expr(fe.expr(at)) != strip_expr(fe.expr(as_))
+        ck.require(ok, "C03:FOR:operands", "limit and step fixed at entry", "start_loop receives the evaluated TO and STEP operands",
                    "evaluate_for_statement no longer passes its evaluated operands to start_loop", fe.span, nontrivial=False)
         # default step 1.0
         has_one = any(st["k"] == "assign" and st["rv"]["k"] == "use" and st["rv"]["op"].get("float") == "1.0"
@@ -308,15 +323,32 @@ def next_exit(ck, F, el):
     """continue iff (step >= 0 ? new <= to : new >= to), new = current + step; variable := new either way."""
     got = {}
     step_sw = None
-    for b in sorted(el.reachable()):
-        t = el.term(b)
-        if t["k"] != "switch":
-            continue
-        e = strip_expr(el.expr(t["discr"]))
-        if e[0] == "binop" and e[1] in ("Ge", "Lt", "Gt", "Le") and "step_value" in show(e[2]):
-            c = strip_expr(e[3])
-            if c[0] == "const" and c[1].get("float") in ("0.0", "-0.0"):
-                step_sw = (b, e[1])
+    host = el
+
+    def find_step_switch(body):
+        for b in sorted(body.reachable()):
+            t = body.term(b)
+            if t["k"] != "switch":
+                continue
+            e = strip_expr(body.expr(t["discr"]))
+            if e[0] == "binop" and e[1] in ("Ge", "Lt", "Gt", "Le") and "step_value" in show(e[2]):
+                c = strip_expr(e[3])
+                if c[0] == "const" and c[1].get("float") in ("0.0", "-0.0"):
+                    return (b, e[1])
+        return None
+    step_sw = find_step_switch(el)
+    if step_sw is None:
+        # the test may have been given a name (`loop_info.should_continue_with(new_value)`): look one call deep, and make
+        # sure the value handed over is the incremented one
+        for c in el.calls():
+            cb = F.bodies.get(c.callee)
+            if cb is None or cb.crate != "abasic_core" or cb.local_ty(0) != "bool":
+                continue
+            sw = find_step_switch(cb)
+            if sw is not None and any("Add" in show(el.expr(a)) and "step_value" in show(el.expr(a)) for a in c.args):
+                step_sw, host = sw, cb
+                break
+    el_outer, el = el, host
     ok = False
     if step_sw is not None:
         b, op = step_sw
@@ -332,6 +364,7 @@ def next_exit(ck, F, el):
         ok = op == "Ge" and arms.get("true", (None,))[0] == "Le" and arms.get("false", (None,))[0] == "Ge" and \
             all(a[2] for a in arms.values())
         got = arms
+    el = el_outer
     ck.require(ok, "C03:NEXT:exit-comparison", "NEXT", "continue iff step >= 0 ? new <= to : new >= to",
                "the loop-continuation test of NEXT is %s (step test %s)" % (got, step_sw), el.span)
     # new = current + step
